@@ -313,14 +313,20 @@ def refusal(seed):
         if k == 13:
             return {"op": "req", "cmd": rng.choice(["incr", "decr"]), "props": {"name": n, "nb": rng.choice(["x", None, [], 1.5])}}
         if k == 14:     # conflicts: exclusive requests while something is in flight
-            return {"op": "req", "cmd": rng.choice(["stop", "start", "incr", "set", "rm", "add", "reload", "quit", "restart"]),
-                    "props": {"name": n, "options": {"numprocesses": 1}, "cmd": "simworker x"}, "conflict": True}
+            c = rng.choice(["stop", "start", "incr", "set", "rm", "add", "add", "reload", "quit", "restart"])
+            q = {"op": "req", "cmd": c, "props": {"name": n, "options": {"numprocesses": 1}, "cmd": "simworker x"},
+                 "conflict": True}
+            if c == "add":      # a NEW name: the only thing that refuses it is the operation in flight
+                q["props"] = {"name": "n%d" % rng.randint(1, 3), "cmd": "simworker x", "start": rng.random() < 0.7}
+            return q
         return {"op": "req", "cmd": "stats", "props": {"name": n, "process": rng.choice([99, "x", -1])}}
 
     for _ in range(rng.randint(8, 22)):
         r = rng.random()
         if r < 0.6:
             q = corrupt()
+            if q.get("cmd") == "add" and isinstance(q.get("props"), dict) and isinstance(q["props"].get("name"), str):
+                q["props"]["cmd"] = "simworker " + q["props"]["name"]      # (the sim kernel labels a child by this)
             if q.pop("conflict", False):
                 # first put a slow operation in flight (a stop of the stubborn watcher), do not let it finish
                 s.append({"op": "req", "cmd": rng.choice(["stop", "restart"]), "props": {"name": "w1"}, "drain": False})
